@@ -1,6 +1,7 @@
 package harness
 
 import (
+	"math/big"
 	"errors"
 	"fmt"
 	"sort"
@@ -429,8 +430,8 @@ func genAtomCfg(t *rapid.T, mix atomMix) Cfg {
 				c.ResponseHeaders = append(c.ResponseHeaders, Str(pickName(t, "r", resHdrAtomsL, chance(t, "rbad", badPct))))
 			}
 		}
-		c.MaxAge = pick(t, "maxage", []int{0, -1, 5, 86400, 86401, -2, 1 << 40, -(1 << 40), 600})
-		c.Status = pick(t, "status", []int{0, 200, 204, 299, 199, 300, 1, -204, 404, 1 << 40, 456, 555, 200 + 65536, 204 - 256, 204 + (1 << 32)})
+		c.MaxAge = pick(t, "maxage", []int{0, -1, 5, 86400, 86401, -2, 1 << 40, -(1 << 40), 600, pick(t, "wrapmaxage", wrapInts(600))})
+		c.Status = pick(t, "status", []int{0, 200, 204, 299, 199, 300, 1, -204, 404, 1 << 40, 456, 555, 200 + 65536, 204 - 256, 204 + (1 << 32), pick(t, "wrapstatus", wrapInts(204))})
 	}
 	fill()
 	if mix == mixOneViolation {
@@ -460,9 +461,9 @@ func plantOne(t *rapid.T, c *Cfg) {
 	case 3:
 		c.ResponseHeaders = insertAt(t, c.ResponseHeaders, pickName(t, "r", resHdrAtomsL, true))
 	case 4:
-		c.MaxAge = pick(t, "badmaxage", []int{86401, -2, 1 << 31, -86400, 100000, 1 << 32, (1 << 32) + 5, -(1 << 32), (1 << 32) - 1})
+		c.MaxAge = pick(t, "badmaxage", []int{86401, -2, 1 << 31, -86400, 100000, 1 << 32, (1 << 32) + 5, -(1 << 32), (1 << 32) - 1, pick(t, "wrapbadmaxage", wrapInts(600)), pick(t, "wrapbadmaxage2", wrapInts(5))})
 	case 5:
-		c.Status = pick(t, "badstatus", []int{199, 300, 1, 100, 404, -1, 2000, 456, 555, 460, 200 + 65536, 204 - 256, 204 + (1 << 32)})
+		c.Status = pick(t, "badstatus", []int{199, 300, 1, 100, 404, -1, 2000, 456, 555, 460, 200 + 65536, 204 - 256, 204 + (1 << 32), pick(t, "wrapbadstatus", wrapInts(204))})
 	case 6:
 		c.PNA, c.PNANoCORS = true, true
 		// keep the rest valid under PNA: no "*", no insecure origin unless tolerated
@@ -586,4 +587,38 @@ func genValidAtomCfg(t *rapid.T) Cfg {
 	c.MaxAge = pick(t, "maxage", []int{0, -1, 1, 5, 600, 86400, 86399})
 	c.Status = pick(t, "status", []int{0, 200, 204, 299, 250})
 	return c
+}
+
+
+// wrapInts lists out-of-range integers that land on the in-range value v (or
+// next to it) after a narrowing conversion or after a multiplication by a
+// unit factor that overflows: v + 2^k for the usual widths, and
+// (2^63 or 2^64)/f + v' for the factors 1e3, 1e6, 1e9 (milli/micro/nano
+// units), 60 and 3600, both signs.
+func wrapInts(v int) []int {
+	var out []int
+	add := func(x *big.Int) {
+		if x.IsInt64() {
+			n := int(x.Int64())
+			if n < -1 || n > 86400 {
+				out = append(out, n)
+			}
+		}
+	}
+	for _, k := range []uint{8, 16, 31, 32, 33, 48, 62, 63} {
+		p := new(big.Int).Lsh(big.NewInt(1), k)
+		add(new(big.Int).Add(p, big.NewInt(int64(v))))
+		add(new(big.Int).Sub(big.NewInt(int64(v)), p))
+	}
+	for _, f := range []int64{1000, 1000000, 1000000000, 60, 3600} {
+		for _, k := range []uint{63, 64} {
+			q := new(big.Int).Div(new(big.Int).Lsh(big.NewInt(1), k), big.NewInt(f))
+			for _, d := range []int64{0, 1, 2, int64(v), int64(v) + 1} {
+				add(new(big.Int).Add(q, big.NewInt(d)))
+				add(new(big.Int).Neg(new(big.Int).Add(q, big.NewInt(d))))
+				add(new(big.Int).Add(new(big.Int).Lsh(q, 1), big.NewInt(d)))
+			}
+		}
+	}
+	return out
 }
